@@ -325,6 +325,15 @@ package kbin
 //@   ensures [bv] b != nil ==> len(out) == len(dst) + uvlen32(zz32(int32(len(b)))) + len(b)
 //@   ensures [int] forall k in 0..len(dst) :: out[k] == old(dst[k])
 
+//@ func AppendVarintString(dst []byte, s string) (out []byte)
+//@   mode int bv
+//@   prop C17
+//@   nopanic
+//@   modifies elems(dst)
+//@   ensures [int] (sameorigin(out, dst) && cap(out) == cap(dst)) || fresh(out)
+//@   ensures [bv] len(out) == len(dst) + uvlen32(zz32(int32(len(s)))) + len(s)
+//@   ensures [int] forall k in 0..len(dst) :: out[k] == old(dst[k])
+
 //@ func AppendArrayLen(dst []byte, l int) (out []byte)
 //@   mode int bv
 //@   prop C17
